@@ -5,7 +5,7 @@ emitted by the harness, maps arrive as sorted lists of [key, value] pairs.
 import Driver.Common
 import NriModel.Result
 
-open Lean Drv Nri Nri.Api
+open Lean Drv Nri Nri.NApi
 
 namespace Drv.Merge
 
